@@ -14,13 +14,19 @@
 (* value, `Condition::init`, `Condition::evaluate`, running a `Loop`.      *)
 (*                                                                         *)
 (* Floats never appear: observed values are naturals (the harness maps     *)
-(* them to u32 or to dyadic floats), progress is a fraction.               *)
+(* them to u32 or to dyadic floats), progress is a fraction.  The SIGNED   *)
+(* lenses "sval" (an f64 state, in halves) and "ival" (an i32 state) see   *)
+(* negative, zero and fractional values: the number k is coded as the      *)
+(* natural SOff + k (order-preserving, so "below n" reads the same on      *)
+(* codes), bounds n likewise; f = "nz" on a call says that its zero bound  *)
+(* / value is the float -0.0 (equal to +0.0 in every comparison, but       *)
+(* value / -0.0 has the opposite sign).                                    *)
 (* One shape per variable: act = [op,l,n,d,f,x,y,z,fm,pg],                 *)
 (* res = [k,b,log,p,t,ev]                                                  *)
 (***************************************************************************)
 EXTENDS Integers, Sequences, FiniteSets
 
-CONSTANTS Lens,       \* subset of {"iter", "eval", "fval", "obj"}
+CONSTANTS Lens,       \* subset of {"iter", "eval", "fval", "obj", "sval", "ival"}
           Val,        \* observed values offered to `set` (naturals)
           Ns,         \* parameters n of less-than-n / every-n / loops
           Ds,         \* thresholds of the delta checker
@@ -39,9 +45,13 @@ state == <<obs, prev, progress, rcN, rcK>>
 vars  == <<obs, prev, progress, rcN, rcK, act, res>>
 
 U32Lens  == {"iter", "eval"}                     \* Target = u32
-LtLens   == {"iter", "eval", "fval"}             \* less-than-n is instantiated on these
-CoLens   == {"iter", "eval", "fval", "obj"}      \* change-of with the PartialEq checker
-DeltaLens == {"iter", "eval", "obj"}             \* change-of with the delta checker (Ord + Sub)
+SLens    == {"sval", "ival"}                     \* signed targets: f64 (in halves), i32
+LtLens   == {"iter", "eval", "fval", "sval", "ival"}   \* less-than-n is instantiated on these
+SOff     == 100000                               \* code of the number 0 on a signed lens
+RV(l, c) == IF l \in SLens THEN c - SOff ELSE c  \* the number a code stands for (in units of the lens)
+Sgn(x)   == IF x > 0 THEN 1 ELSE IF x < 0 THEN -1 ELSE 0
+CoLens   == {"iter", "eval", "fval", "obj", "sval", "ival"}   \* change-of with the PartialEq checker
+DeltaLens == {"iter", "eval", "obj", "ival"}     \* change-of with the delta checker (Ord + Sub)
 
 ---------------------------------------------------------------------------
 (* Fractions.  Reduce(v, n) is value/n in lowest terms; v/0 follows the    *)
@@ -52,6 +62,16 @@ RECURSIVE GCD(_, _)
 GCD(a, b) == IF b = 0 THEN a ELSE GCD(b, a % b)
 Reduce(v, n) == IF n = 0 THEN Frac(IF v = 0 THEN 0 ELSE 1, 0)
                 ELSE Frac(v \div GCD(v, n), n \div GCD(v, n))
+(* The same for integers of either sign: the denominator is positive, the   *)
+(* sign sits in the numerator; v / 0 is <<1,0>> / <<-1,0>> / <<0,0>> for    *)
+(* positive / negative / zero v, with the signs swapped when the zero is    *)
+(* the negative zero (nz).                                                  *)
+AbsZ(x) == IF x < 0 THEN -x ELSE x
+Quo(v, n, nz) ==
+    IF n = 0 THEN Frac((IF nz THEN -1 ELSE 1) * Sgn(v), 0)
+    ELSE LET g == GCD(AbsZ(v), AbsZ(n)) IN Frac(Sgn(n) * Sgn(v) * (AbsZ(v) \div g), AbsZ(n) \div g)
+\* value / n as less-than-n on lens l writes it (codes v, n)
+Ratio(l, v, n, f) == IF l \in SLens THEN Quo(RV(l, v), RV(l, n), f = "nz") ELSE Reduce(v, n)
 
 ---------------------------------------------------------------------------
 (* Formulas: nodes [k, o, c]; k in {"leaf","not","and","or"}; o = scripted *)
@@ -107,10 +127,10 @@ LtInit(l) ==
     /\ res' = ROk
     /\ UNCHANGED <<obs, prev, rcN, rcK>>
 
-LessThanN(l, n) ==
+LessThanN(l, n, f) ==
     IF ~Readable(l) THEN res' = RErr /\ UNCHANGED state
     ELSE /\ res' = RB(obs[l] < n)
-         /\ progress' = [progress EXCEPT ![l] = Reduce(obs[l], n)]
+         /\ progress' = [progress EXCEPT ![l] = Ratio(l, obs[l], n, f)]
          /\ UNCHANGED <<obs, prev, rcN, rcK>>
 
 EveryN(l, n) ==
@@ -209,6 +229,28 @@ Loop(n, f) ==
         /\ progress' = [progress EXCEPT !["iter"] = Reduce(s.v, n)]
         /\ UNCHANGED <<prev, rcN, rcK>>
 
+(* Loop(while less-than-n(signed lens l), body raising the value by d > 0    *)
+(* per pass), run as a configuration run does (init, require, execute): test, *)
+(* pass, raise -- and the loop counts its passes on "iter".  s as above, with *)
+(* the values the body saw in log.                                            *)
+RECURSIVE SLoopRun(_, _, _)
+SLoopRun(n, d, s) ==
+    IF s.v < n THEN SLoopRun(n, d, [v |-> s.v + d, p |-> s.p + 1, t |-> s.t + 1, log |-> Append(s.log, s.v)])
+    ELSE [s EXCEPT !.t = s.t + 1]
+
+SLoop(l, n, d, f) ==
+    IF ~Readable(l) THEN       \* nothing to read: the first test fails with an error
+        /\ res' = R("err", NoVal, <<>>, 0, 1)
+        /\ progress' = [progress EXCEPT ![l] = Frac(0, 1)]
+        /\ obs' = [m \in Lens |-> IF m = "iter" THEN 0 ELSE obs[m]]
+        /\ UNCHANGED <<prev, rcN, rcK>>
+    ELSE LET s == SLoopRun(n, d, [v |-> obs[l], p |-> 0, t |-> 0, log |-> <<>>]) IN
+        /\ d > 0
+        /\ res' = R("ok", NoVal, s.log, s.p, s.t)
+        /\ obs' = [m \in Lens |-> IF m = l THEN s.v ELSE IF m = "iter" THEN s.p ELSE obs[m]]
+        /\ progress' = [progress EXCEPT ![l] = Ratio(l, s.v, n, f)]
+        /\ UNCHANGED <<prev, rcN, rcK>>
+
 ---------------------------------------------------------------------------
 (* Loops and scopes nested in one another (`nest`).  A program is a tree of *)
 (*   loop(n, body)  Loop(while less-than-n(iterations), body)               *)
@@ -286,7 +328,8 @@ Do(a) ==
     /\ act' = a
     /\ CASE a.op = "set"        -> SetObs(a.l, a.x)
          [] a.op = "lt_init"    -> LtInit(a.l)
-         [] a.op = "lt"         -> LessThanN(a.l, a.n)
+         [] a.op = "lt"         -> LessThanN(a.l, a.n, a.f)
+         [] a.op = "sloop"      -> SLoop(a.l, a.n, a.d, a.f)
          [] a.op = "every"      -> EveryN(a.l, a.n)
          [] a.op = "co_init"    -> CoInit(a.l)
          [] a.op = "co"         -> ChangeOf(a.l, a.d)
@@ -315,17 +358,28 @@ FSeqs(d, n, len) ==
 (* (not defined as a constant: TLC would build that set before it starts).          *)
 
 Z == NoVal
+\* the values / bounds of Val / Ns offered on lens l: the codes of signed numbers on the signed lenses,
+\* the (small) naturals on the others
+IsSCode(c) == c >= SOff \div 2
+ValOf(l) == {v \in Val : (l \in SLens) = IsSCode(v)}
+NsOf(l)  == {n \in Ns : (l \in SLens) = IsSCode(n)}
 Acts ==
     (IF "set" \in Ops THEN
-        {A("set", l, Z, Z, "-", v, Z, Z, NoForm) : l \in Lens, v \in Val \cup {NoVal}}
+        UNION {{A("set", l, Z, Z, "-", v, Z, Z, NoForm) : v \in ValOf(l) \cup {NoVal}} : l \in Lens}
         \cup {A("set", "obj", Z, Z, "-", Gone, Z, Z, NoForm) : l \in Lens \cap {"obj"}}
+        \cup {A("set", "sval", Z, Z, "nz", SOff, Z, Z, NoForm) : l \in Lens \cap {"sval"}}      \* -0.0
      ELSE {})
     \cup (IF "lt" \in Ops THEN
-        {A("lt", l, n, Z, "-", Z, Z, Z, NoForm) : l \in Lens \cap LtLens, n \in Ns}
+        UNION {{A("lt", l, n, Z, "-", Z, Z, Z, NoForm) : n \in NsOf(l)} : l \in Lens \cap LtLens}
+        \cup {A("lt", "sval", SOff, Z, "nz", Z, Z, Z, NoForm) : l \in Lens \cap {"sval"}}       \* n = -0.0
         \cup {A("lt_init", l, Z, Z, "-", Z, Z, Z, NoForm) : l \in Lens \cap LtLens}
      ELSE {})
+    \cup (IF "sloop" \in Ops THEN
+        UNION {{A("sloop", l, n, d, "-", Z, Z, Z, NoForm) : n \in NsOf(l), d \in Ds \ {0}} : l \in Lens \cap SLens}
+        \cup {A("sloop", "sval", SOff, d, "nz", Z, Z, Z, NoForm) : l \in Lens \cap {"sval"}, d \in Ds \ {0}}
+     ELSE {})
     \cup (IF "every" \in Ops THEN
-        {A("every", l, n, Z, "-", Z, Z, Z, NoForm) : l \in Lens \cap U32Lens, n \in Ns \ {0}}
+        UNION {{A("every", l, n, Z, "-", Z, Z, Z, NoForm) : n \in NsOf(l) \ {0}} : l \in Lens \cap U32Lens}
      ELSE {})
     \cup (IF "co" \in Ops THEN
         {A("co", l, Z, Z, "-", Z, Z, Z, NoForm) : l \in Lens \cap CoLens}
@@ -342,7 +396,7 @@ Acts ==
         \cup {A("rc_end", "-", pt, Z, "-", Z, Z, Z, NoForm) : pt \in Pts}
      ELSE {})
     \cup (IF "loop" \in Ops /\ "iter" \in Lens THEN
-        {A("loop", "iter", n, Z, f, Z, Z, Z, NoForm) : n \in Ns, f \in {"init", "exec"}}
+        {A("loop", "iter", n, Z, f, Z, Z, Z, NoForm) : n \in NsOf("iter"), f \in {"init", "exec"}}
      ELSE {})
 
 (* A fresh run: nothing observable yet, every condition initialised. *)
@@ -413,7 +467,7 @@ Spec == Init /\ [][Next]_vars
 
 TypeOK ==
     /\ \A l \in Lens : obs[l] \in Nat \cup {NoVal, Gone} /\ prev[l] \in Nat \cup {NoVal}
-    /\ \A l \in Lens : progress[l].num \in Nat /\ progress[l].den \in Nat
+    /\ \A l \in Lens : progress[l].num \in (IF l \in SLens THEN Int ELSE Nat) /\ progress[l].den \in Nat
     /\ \A p \in Pts : rcN[p] \in Nat /\ rcK[p] \in 0..rcN[p]
     /\ res.k \in {"ok", "err", "bool", "ctor_err"}
     /\ res.b \in {0, 1, NoVal}
@@ -428,12 +482,14 @@ UnreadableIsError ==
 
 \* less-than-n: true exactly while the value is below n; writes progress = value / n
 \* (as a fraction: num * n = value * den; the value of v / 0 is left to the arithmetic)
+\* (v, n: the NUMBERS seen and given -- of either sign on the signed lenses, where dividing by a
+\* negative n turns the order of the quotients round but not the truth of "v is below n")
 LessThanExact ==
     [][ Is("lt") /\ obs[act'.l] >= 0 =>
-          LET v == obs[act'.l]  n == act'.n  pr == progress'[act'.l] IN
+          LET v == RV(act'.l, obs[act'.l])  n == RV(act'.l, act'.n)  pr == progress'[act'.l] IN
           /\ Told(v < n)
-          /\ n > 0 => pr.den > 0 /\ pr.num * n = v * pr.den
-          /\ n = 0 => pr.den = 0
+          /\ n # 0 => pr.den > 0 /\ pr.num * n = v * pr.den
+          /\ n = 0 => pr.den = 0 /\ pr.num = (IF act'.f = "nz" THEN -1 ELSE 1) * Sgn(v)
           /\ OthersKeep(progress', progress, act'.l)
           /\ <<obs, prev, rcN, rcK>>' = <<obs, prev, rcN, rcK>> ]_vars
 
@@ -527,6 +583,26 @@ LoopFromAnywhere ==
           /\ res'.k = "ok" /\ res'.p = k /\ res'.t = k + 1
           /\ res'.log = [i \in 1..k |-> v + i - 1]
           /\ obs'["iter"] = v + k ]_vars
+
+\* a loop driven by less-than-n on a signed lens, whose body raises the value by d per pass from v0:
+\* it makes exactly the passes "while the value is below n" implies -- every pass made was due, the
+\* loop stopped at the first value that is not below n (p = 0 if v0 is not) -- tests once more,
+\* its body sees v0, v0 + d, ..., counts the passes, and leaves progress = last value / n
+SLoopExact ==
+    [][ Is("sloop") /\ obs[act'.l] >= 0 =>
+          LET l == act'.l  v0 == obs[l]  n == act'.n  d == act'.d  p == res'.p
+              pr == progress'[l]  vn == RV(l, v0 + p * d)  nn == RV(l, n) IN
+          /\ res'.k = "ok" /\ p >= 0 /\ res'.t = p + 1
+          /\ \A k \in 0..(p - 1) : v0 + k * d < n
+          /\ ~(v0 + p * d < n)
+          /\ res'.log = [i \in 1..p |-> v0 + (i - 1) * d]
+          /\ obs'[l] = v0 + p * d
+          /\ "iter" \in Lens => obs'["iter"] = p
+          /\ nn # 0 => pr.den > 0 /\ pr.num * nn = vn * pr.den
+          /\ nn = 0 => pr.den = 0 /\ pr.num = (IF act'.f = "nz" THEN -1 ELSE 1) * Sgn(vn)
+          /\ \A m \in Lens \ {l, "iter"} : obs'[m] = obs[m]
+          /\ OthersKeep(progress', progress, l)
+          /\ <<prev, rcN, rcK>>' = <<prev, rcN, rcK>> ]_vars
 
 ---------------------------------------------------------------------------
 (* Loops under scopes.  Stated on the program text and the observations,   *)
